@@ -229,35 +229,61 @@ var c05ReturnUnspec = map[string]string{
 // identifiers expected in ID positions of built-ins (Fastly function reference)
 
 var c05IDArgs = map[string][]string{
-	"crypto.decrypt_base64":       {"aes128", "cbc", "pkcs7"},
-	"crypto.decrypt_hex":          {"aes128", "cbc", "pkcs7"},
-	"crypto.encrypt_base64":       {"aes128", "cbc", "pkcs7"},
-	"crypto.encrypt_hex":          {"aes128", "cbc", "pkcs7"},
-	"digest.rsa_verify":           {"sha256", "url_nopad"},
-	"digest.ecdsa_verify":         {"sha256", "der", "url_nopad"},
-	"setcookie.delete_by_name":    {"resp"},
-	"setcookie.get_value_by_name": {"resp"},
-	"std.collect":                 {"req.http.X-Probe"},
-	"std.count":                   {"req.headers"},
-	"ratelimit.check_rate":        {"rc", "pb"},
-	"ratelimit.check_rates":       {"rc", "rc", "pb"},
-	"ratelimit.penaltybox_add":    {"pb"},
-	"ratelimit.penaltybox_has":    {"pb"},
+	"crypto.decrypt_base64":           {"aes128", "cbc", "pkcs7"},
+	"crypto.decrypt_hex":              {"aes128", "cbc", "pkcs7"},
+	"crypto.encrypt_base64":           {"aes128", "cbc", "pkcs7"},
+	"crypto.encrypt_hex":              {"aes128", "cbc", "pkcs7"},
+	"digest.rsa_verify":               {"sha256", "url_nopad"},
+	"digest.ecdsa_verify":             {"sha256", "der", "url_nopad"},
+	"setcookie.delete_by_name":        {"resp"},
+	"setcookie.get_value_by_name":     {"resp"},
+	"std.collect":                     {"req.http.X-Probe"},
+	"std.count":                       {"req.headers"},
+	"ratelimit.check_rate":            {"rc", "pb"},
+	"ratelimit.check_rates":           {"rc", "rc", "pb"},
+	"ratelimit.penaltybox_add":        {"pb"},
+	"ratelimit.penaltybox_has":        {"pb"},
 	"ratelimit.ratecounter_increment": {"rc"},
-	"header.get":                  {"req"},
-	"header.set":                  {"req"},
-	"header.unset":                {"req"},
-	"header.filter":               {"req"},
-	"header.filter_except":        {"req"},
+	"header.get":                      {"req"},
+	"header.set":                      {"req"},
+	"header.unset":                    {"req"},
+	"header.filter":                   {"req"},
+	"header.filter_except":            {"req"},
 }
 
-// string arguments that must have a particular shape for the call to be meaningful
-// (value-dependent failures are outside C05 anyway; these keep the probes realistic)
-var c05StringArgs = map[string][]string{
-	"crypto.decrypt_base64": {`"000102030405060708090a0b0c0d0e0f"`, `"000102030405060708090a0b0c0d0e0f"`, `"AAAAAAAAAAAAAAAAAAAAAA=="`},
-	"crypto.decrypt_hex":    {`"000102030405060708090a0b0c0d0e0f"`, `"000102030405060708090a0b0c0d0e0f"`, `"00000000000000000000000000000000"`},
-	"crypto.encrypt_base64": {`"000102030405060708090a0b0c0d0e0f"`, `"000102030405060708090a0b0c0d0e0f"`, `"aGVsbG8="`},
-	"crypto.encrypt_hex":    {`"000102030405060708090a0b0c0d0e0f"`, `"000102030405060708090a0b0c0d0e0f"`, `"68656c6c6f"`},
+// complete argument lists (per signature index of builtin.yml) for built-ins whose arguments must
+// have a particular shape for the call to be meaningful. Value-dependent failures are outside
+// C05; these only keep the probes realistic so that S exercises the function body.
+var c05CallArgs = map[string][][]string{
+	"crypto.decrypt_base64":              {{"aes128", "cbc", "pkcs7", `"000102030405060708090a0b0c0d0e0f"`, `"000102030405060708090a0b0c0d0e0f"`, `"Hf6DbfcOiTEKlwox+jNR/Q=="`}},
+	"crypto.decrypt_hex":                 {{"aes128", "cbc", "pkcs7", `"000102030405060708090a0b0c0d0e0f"`, `"000102030405060708090a0b0c0d0e0f"`, `"1dfe836df70e89310a970a31fa3351fd"`}},
+	"crypto.encrypt_base64":              {{"aes128", "cbc", "pkcs7", `"000102030405060708090a0b0c0d0e0f"`, `"000102030405060708090a0b0c0d0e0f"`, `"aGVsbG8="`}},
+	"crypto.encrypt_hex":                 {{"aes128", "cbc", "pkcs7", `"000102030405060708090a0b0c0d0e0f"`, `"000102030405060708090a0b0c0d0e0f"`, `"68656c6c6f"`}},
+	"accept.media_lookup":                {{`"text/html:text/plain"`, `"text/plain"`, `"image/*"`, `"text/html"`}},
+	"digest.time_hmac_md5":               {{`"c2VjcmV0"`, "60", "0"}},
+	"digest.time_hmac_sha1":              {{`"c2VjcmV0"`, "60", "0"}},
+	"digest.time_hmac_sha256":            {{`"c2VjcmV0"`, "60", "0"}},
+	"digest.time_hmac_sha512":            {{`"c2VjcmV0"`, "60", "0"}},
+	"digest.hash_sha1_from_base64":       {{`"aGVsbG8="`}},
+	"digest.hash_sha256_from_base64":     {{`"aGVsbG8="`}},
+	"digest.hash_sha512_from_base64":     {{`"aGVsbG8="`}},
+	"digest.hash_xxh32_from_base64":      {{`"aGVsbG8="`}},
+	"digest.hash_xxh64_from_base64":      {{`"aGVsbG8="`}},
+	"digest.hmac_sha256_with_base64_key": {{`"c2VjcmV0"`, `"abc"`}},
+	"ratelimit.check_rate":               {{`"abc"`, "rc", "1", "10", "100", "pb", "2m"}},
+	"ratelimit.check_rates":              {{`"abc"`, "rc", "1", "10", "100", "rc", "1", "60", "1000", "pb", "2m"}},
+	"std.atof":                           {{`"1.5"`}},
+	"std.atoi":                           {{`"12"`}},
+	"std.ip":                             {{`"10.0.0.1"`, `"10.0.0.2"`}},
+	"std.str2ip":                         {{`"10.0.0.1"`, `"10.0.0.2"`}},
+	"std.itoa":                           {{"1", "10"}},
+	"std.strtof":                         {{`"1.5"`, "10"}},
+	"std.strtol":                         {{`"12"`, "10"}},
+	"subfield":                           {{`"a=b"`, `"a"`, `";"`}},
+	"time.runits":                        {{`"s"`, "10s"}},
+	"time.units":                         {{`"s"`, "now"}},
+	"uuid.version3":                      {{`"6ba7b810-9dad-11d1-80b4-00c04fd430c8"`, `"abc"`}},
+	"uuid.version5":                      {{`"6ba7b810-9dad-11d1-80b4-00c04fd430c8"`, `"abc"`}},
 }
 
 // top-level declarations every probe program starts with
